@@ -14,11 +14,12 @@ man = {
     "version": 1,
     "setup_cmd": "./check --setup",
     "hooks": {
-        "guard": "cfg(kani) — set only by the Kani compiler; ordinary cargo build/test strips the hook items",
-        "enable": "cargo kani -p <crate> (run by ./check inside /repo) compiles with --cfg kani, which mounts "
+        "guard": "cfg(kani)",
+        "enable": "cfg `kani` is set only by the Kani compiler (ordinary cargo build/test strips the hook items): "
+                  "cargo kani -p <crate> (run by ./check inside /repo) compiles with --cfg kani, which mounts "
                   "/verif/harness/<crate>/<module>.rs as a child module `verif_kani` of the instrumented module",
         "baseline_off_cmd": "cd /repo && cargo nextest run --workspace --no-fail-fast --tool-config-file pb:/w/lib/nextest.toml "
-                            "--profile pb --test-threads 8 --offline || cargo test --workspace --no-fail-fast --offline",
+                            "--profile pb --test-threads 8 --offline",
         "source_commits": hook_commits,
         "add_only": True,
     },
